@@ -139,7 +139,8 @@ def setBitsValue (n : Node) (ival : Nat) : Node :=
     let n1 := mkvalNode n
     let e := n1.enc
     let msng := missingIvalue e.nbits
-    let iv : Int := if ival = msng then (if n1.desc = 31000 ∧ e.nbits = 1 then 1 else -1) else ival
+    -- regulation 94.1.5 does not apply to the numeric elements of class 31: all ones is a count there
+    let iv : Int := if ival = msng then (if e.type = .numeric ∧ Desc.x n1.desc = 31 then ival else -1) else ival
     match e.type with
     | .numeric =>
       match n1.val with
